@@ -7,9 +7,9 @@ import (
 	"fmt"
 	"net/http/httptest"
 	"os"
-	"strconv"
 	"regexp"
 	"sort"
+	"strconv"
 	"strings"
 
 	"github.com/indexsupply/shovel/shovel"
